@@ -13,13 +13,20 @@ integral), over exact rationals.  TLC checks the model-internal lemmas ShapeSoun
 LinIsDerivContracted, FactorIdentity, FactorIdempotent, RejectSound; three spec mutants (sequential substitution,
 unit-seeded linearize, factor dropping the constant term) must violate them.
 
+Runs: (1) exhaustive TLC over small vocabularies (MCSubst!QuickFamilies / ThoroughFamilies, one TLC process each) plus the
+compact all-actions vocabulary CovFamilies with per-action coverage (vacuity guard: every action taken; TLC's -coverage
+multiplies the run time of this arithmetic-heavy spec, so it is switched on for CovFamilies only in the quick tier);
+(2) the three spec mutants; (3) -simulate over the deep vocabularies SimFamilies.
+
 Binding (S->C): every behaviour TLC emits (program + predicted outcome VALUE(array) | REJECT | ANY | UNDEF) is replayed
 on real nutils.function objects (c13_replay.py): Argument / field / dotarg, numpy-API operations,
-function.replace_arguments / Array.replace, linearize, derivative, factor, domain.integral on mesh.line(2);
-evaluated with function.eval / Array.eval and, for the first assignment, inside domain.integral(f basis dV).  Values
-must equal the model (exact dyadic inputs, rtol 1e-9) in EVERY documented spelling of the argument specification the
-model lists for the node (operator Spellings); REJECT must surface as an exception (wrongly shaped / typed
-replacements, wrongly shaped / typed values at call time), never as a value.
+function.replace_arguments / Array.replace, linearize, derivative, factor, domain.integral / sample.integral on
+mesh.line(2); evaluated with function.eval / Array.eval and, for the first assignment, inside an integrand
+(function.eval(domain.integral(f basis dV)) / sample.integrate / domain.integrate).  Values must equal the model (exact
+dyadic inputs, rtol 1e-9) in EVERY documented spelling of the argument specification the model lists for the node
+(operator Spellings); function.arguments_for / .arguments must be the model's free arguments; REJECT must surface as an
+exception (wrongly shaped / typed replacements, wrongly shaped / typed values at call time), never as a value.  A second
+vacuity guard demands that every action of the machine occurs in a behaviour that was replayed and judged.
 """
 
 import collections
@@ -32,6 +39,7 @@ from . import c13_replay as cr
 
 LEVEL = 'model_checking'
 
+MANIPS = ('Replace', 'Lin', 'Deriv', 'Factor', 'Int')
 ACTIONS = ['AddLeaf', 'AddOp', 'DoReplaceSingle', 'DoReplaceDouble', 'DoReplaceBad', 'DoLinearize', 'DoDerive', 'DoFactorize', 'DoIntegrate',
            'DoEvalGood', 'DoEvalBad']
 INVARIANTS = ['ShapeSound', 'FvSound', 'ReplaceIdNoop', 'SubstLemma', 'ChainTwoStep', 'SwapTwice', 'LinLinear', 'LinIsDerivContracted',
@@ -61,6 +69,24 @@ def collect(res, groups, tables):
         g = groups.setdefault(canon(e['prog']), dict(prog=e['prog'], fam=e['fam'], outcomes={}))
         r = e['res']
         g['outcomes'][json.dumps([r['stage'], r['asg'], r['mode'], r['bad'], r['badsh']], sort_keys=True)] = r
+
+
+def actions_of(g):
+    """the actions of the Subst machine a group of behaviours (one program, all its outcomes) takes"""
+    c = collections.Counter()
+    for n in g['prog']:
+        op = n['op']
+        if op in ('Arg', 'Const', 'Field'):
+            c['AddLeaf'] += 1      # (the leaves of replacement values come with the Replace action; counted here as well)
+        elif op == 'Replace':
+            c['DoReplaceSingle' if len(n['p']) == 1 else 'DoReplaceDouble'] += 1
+        elif op in MANIPS:
+            c[{'Lin': 'DoLinearize', 'Deriv': 'DoDerive', 'Factor': 'DoFactorize', 'Int': 'DoIntegrate'}[op]] += 1
+        else:
+            c['AddOp'] += 1
+    for r in g['outcomes'].values():
+        c['DoReplaceBad' if r['stage'] == 'construct' else 'DoEvalGood' if r['verdict'] in ('VALUE', 'UNDEF') else 'DoEvalBad'] += 1
+    return c
 
 
 def _module(tag, body):
@@ -95,6 +121,20 @@ def _tlc_job(job):
     return name, res
 
 
+def _tlc_job_collected(job):
+    """run the job and reduce the result at once to the groups (program -> predicted outcomes); the raw output and the
+    list of emitted records (a full copy of the program per outcome) are released"""
+    name, res = _tlc_job(job)
+    groups, tables = {}, {}
+    if not name.startswith('mutant-') and not res.violated:
+        collect(res, groups, tables)
+        for g in groups.values():
+            g['fam'] = name
+        res.emitted = []
+        res.stdout = ''
+    return name, (res, groups, tables)
+
+
 def run(rep):
     exh, sim, tables = tlc_stage(rep)
     replay_stage(rep, exh, sim, tables)
@@ -104,30 +144,31 @@ def tlc_stage(rep):
     import concurrent.futures
     quick = rep.tier == 'quick'
     tables = {}
-    famlist = 'QuickFamilies' if quick else 'ThoroughFamilies'
-    nfam = 5
-    nsimfam = 4
     jobs = []
-    # 1. design spec, exhaustive over small vocabularies (one TLC process per vocabulary), with per-action coverage
-    # (TLC's -coverage more than doubles the run time of this arithmetic-heavy spec: per-action coverage is taken from the compact
-    # all-actions vocabulary CovFamilies; for the other runs the actions taken are counted from the emitted behaviours)
+    # 1. design spec, exhaustive over small vocabularies (one TLC process per vocabulary).  TLC's -coverage multiplies the run time
+    # of this arithmetic-heavy spec (x4 .. x10): per-action coverage is taken from the compact all-actions vocabulary CovFamilies
+    # (quick) and from CovFamilies + QuickFamilies (thorough); the largest jobs come first
+    if not quick:
+        for i in range(1, 6):
+            jobs.append(('exhT{}'.format(i), '<< ThoroughFamilies[{}] >>'.format(i), {}, dict(workers=4, coverage=False, timeout=2400)))
+    for i in range(1, 7):
+        jobs.append(('exh{}'.format(i), '<< QuickFamilies[{}] >>'.format(i), {}, dict(workers=2, coverage=not quick, timeout=900 if quick else 2400)))
     jobs.append(('cov', 'CovFamilies', {}, dict(workers=2, coverage=True, timeout=900 if quick else 2400)))
-    for i in range(1, nfam + 1):
-        jobs.append(('exh{}'.format(i), '<< {}[{}] >>'.format(famlist, i), {}, dict(workers=2 if quick else 4, coverage=not quick, timeout=900 if quick else 2400)))
-    # 2. spec mutants: each must violate its lemma
+    # 2. deeper behaviours by simulation (a fixed number of behaviours: reproducible for a given seed)
+    for k in range(1 if quick else 2):
+        for i in range(1, 5):
+            jobs.append(('sim{}{}'.format(i, 'abcd'[k]), '<< SimFamilies[{}] >>'.format(i), {},
+                         dict(workers=1, simulate=dict(num=100 if quick else 600), depth=16, seed=rep.seed + 13 + i + 100 * k, timeout=600 if quick else 2400)))
+    # 3. spec mutants: each must violate its lemma
     for name, inv in MUTANTS.items():
         jobs.append(('mutant-' + name, 'MutantFamilies', dict(mutant=name, invariants=[inv], emit=False), dict(workers=1, timeout=600)))
-    # 3. deeper behaviours by simulation
-    nsim = 100 if quick else 2500
-    for i in range(1, nsimfam + 1):
-        jobs.append(('sim{}'.format(i), '<< SimFamilies[{}] >>'.format(i), {}, dict(workers=1, simulate=dict(num=nsim), depth=16, seed=rep.seed + 13 + i, timeout=600 if quick else 900)))
-    with concurrent.futures.ThreadPoolExecutor(max_workers=8 if quick else 6) as pool:
-        results = dict(pool.map(_tlc_job, jobs))
+    with concurrent.futures.ThreadPoolExecutor(max_workers=14 if quick else 10) as pool:
+        results = dict(pool.map(_tlc_job_collected, jobs))
     rep.lap('TLC: {} runs'.format(len(jobs)))
 
     exh, sim, mut = {}, {}, {}
     coverage = collections.Counter()
-    for name, res in results.items():
+    for name, (res, groups, tabs) in results.items():
         if name.startswith('mutant-'):
             m = name[len('mutant-'):]
             mut[m] = res.violated
@@ -140,10 +181,12 @@ def tlc_stage(rep):
         isexh = name.startswith('exh') or name == 'cov'
         rep.add_tlc(res, exhaustive=isexh)
         tgt = exh if isexh else sim
-        before = set(tgt)
-        collect(res, tgt, tables)
-        for k in set(tgt) - before:
-            tgt[k]['fam'] = name
+        tables.update(tabs)
+        for k, g in groups.items():
+            if k in tgt:
+                tgt[k]['outcomes'].update(g['outcomes'])
+            else:
+                tgt[k] = g
         if isexh:
             for a, (d, t) in res.coverage.items():
                 coverage[a] += t
@@ -161,18 +204,22 @@ def replay_stage(rep, exh, sim, tables):
     rng = random.Random(rep.seed)
     quick = rep.tier == 'quick'
     # ---- 4. selection of the groups (program + all predicted outcomes) to replay
-    budget = 2600 if quick else 30000
+    budget = 3200 if quick else 12000
     egroups = list(exh.values())
     rng.shuffle(egroups)
-    # keep every family represented; prefer programs with manipulations
-    byfam = collections.defaultdict(list)
+    # round robin over (vocabulary, manipulation signature) classes: every kind of behaviour TLC produced is replayed before a
+    # second representative of any class is taken
+    classes = collections.defaultdict(list)
     for g in egroups:
-        byfam[g['fam']].append(g)
+        classes[g['fam'], tuple((n['op'], n['k'], len(n['p'])) for n in g['prog'] if n['op'] in MANIPS)].append(g)
     sel = []
-    per = max(1, budget // max(1, len(byfam)))
-    for fam, gs in sorted(byfam.items()):
-        gs.sort(key=lambda g: -min(3, sum(1 for n in g['prog'] if n['op'] in ('Replace', 'Lin', 'Deriv', 'Factor', 'Int'))) - rng.random())
-        sel += gs[:per]
+    order = sorted(classes)
+    rank = 0
+    while len(sel) < min(budget, len(egroups)):
+        for c in order:
+            if rank < len(classes[c]) and len(sel) < budget:
+                sel.append(classes[c][rank])
+        rank += 1
     sgroups = [g for k, g in sim.items() if k not in exh]
     rng.shuffle(sgroups)
     sel += sgroups[:budget // 3]
@@ -180,7 +227,7 @@ def replay_stage(rep, exh, sim, tables):
                          exhaustive_outcomes=sum(len(g['outcomes']) for g in exh.values()))
     # quick: the baseline spelling plus two rotating other spellings per program; thorough: every spelling for every program
     items = [(tables, g['prog'], list(g['outcomes'].values()), [2 * i, 2 * i + 1] if quick else None) for i, g in enumerate(sel)]
-    del exh, sim, egroups, sgroups, byfam
+    del exh, sim, egroups, sgroups, classes
     import gc
     cr.warm()
     gc.collect()
@@ -194,6 +241,7 @@ def replay_stage(rep, exh, sim, tables):
     # ---- 5. verdicts
     spellings = collections.Counter()
     judged = values = rejects = late = 0
+    replayed_actions = collections.Counter()
     for g, o in zip(sel, outs):
         if 'harness_error' in o:
             raise RuntimeError(o['harness_error'])
@@ -201,6 +249,9 @@ def replay_stage(rep, exh, sim, tables):
         nman = sum(1 for n in prog if n['op'] in ('Replace', 'Lin', 'Deriv', 'Factor', 'Int'))
         rep.case(canon(prog), nontrivial=nman >= 1 and o['judged'] > 0)
         rep.traces += len(g['outcomes'])
+        if o['judged'] > 0:
+            for a, n in actions_of(g).items():
+                replayed_actions[a] += n
         judged += o['judged']
         values += o['values']
         rejects += o['rejects']
@@ -211,6 +262,11 @@ def replay_stage(rep, exh, sim, tables):
             rep.skip(why, n)
         for key, what, data in o['violations']:
             rep.violation(key, what, data)
+    # vacuity at the level of the binding: every action of the machine occurs in a behaviour that was replayed AND judged on nutils
+    missing = [a for a in ACTIONS if replayed_actions.get(a, 0) == 0]
+    if missing:
+        raise RuntimeError('vacuous: no replayed behaviour takes the actions {}'.format(missing))
+    rep.extra['replayed_actions'] = dict(replayed_actions)
     rep.extra.update(comparisons=judged, values_compared=values, rejections_observed=rejects, late_rejections=late,
                      spellings_exercised=dict(spellings))
     for g in sel[:3]:
